@@ -157,11 +157,13 @@ def run(ctx):
     invalid_om = rng.random() < 0.15 and nt > 0
     if invalid_om:
       j = rng.randrange(nt)
-      how = rng.choice(['tilde', 'emptyval', 'badtag'])
+      how = rng.choice(['tilde', 'emptyval', 'badtag', 'semival', 'semival'])
       if how == 'tilde':
         tags[j] = (tags[j][0], '~' + tags[j][1])
       elif how == 'emptyval':
         tags[j] = (tags[j][0], '')
+      elif how == 'semival':
+        tags[j] = (tags[j][0], tags[j][1] + ';' + rng.choice(['x', 'x=1', 'a=b;c=d']))     # only OpenMetrics syntax can carry a ';' in a value
       else:
         tags[j] = (tags[j][0] + rng.choice(';!^'), tags[j][1])
     perms = list(itertools.permutations(tags))
